@@ -1650,8 +1650,12 @@ bool Analyser::AnalyserImpl::areSameUnitsMaps(const UnitsMaps &firstUnitsMaps,
                 }
             }
 
+            // The exponents are sums of products of real numbers: allow for the rounding of those sums (e.g. what
+            // is left of 1 + 1.1 - 0.2 - 0.9 once it has been multiplied by 3).
+            static const double exponentTolerance = 1.0e-9;
+
             for (const auto &unitsItem : unitsMap) {
-                if (!areNearlyEqual(unitsItem.second, 0.0)) {
+                if (std::fabs(unitsItem.second) > exponentTolerance) {
                     return false;
                 }
             }
